@@ -88,6 +88,8 @@ def run_case(c):
             ret = None
             try:
                 if op["op"] == "burst":
+                    shared = bytearray()       # op["shared_payload"]: ONE buffer refilled for every command
+
                     def calls():
                         first, n, rextra = op.get("cmds_range", [0, 0, 0])
                         for cid, extra in op["cmds"] + [[first + i, rextra] for i in range(n)]:
@@ -96,8 +98,16 @@ def run_case(c):
                                 net.now += op.get("cb", {}).get(str(cid), 0)      # a slow callback
                             net.now += op.get("iter", {}).get(str(cid), 0)        # a slow command iterable
                             f = scpsim.cmd_fields(cid)
+                            data = f["data"]
+                            if op.get("shared_payload"):
+                                # a lazy producer that reuses its buffer (like readinto): the command is what the
+                                # buffer holds when it is yielded; the buffer is overwritten for the next command
+                                shared[:] = data
+                                data = shared
                             yield scpcall(f["x"], f["y"], f["p"], f["cmd"], f["arg1"], f["arg2"], f["arg3"],
-                                          f["data"], cb, extra)
+                                          data, cb, extra)
+                            if op.get("shared_payload"):
+                                shared[:] = b"\xee" * len(shared)      # scribbled over as soon as control returns
                     conn.send_scp_burst(bs, op["window"], calls())
                 else:
                     f = scpsim.cmd_fields(op["id"])
